@@ -982,7 +982,7 @@ class Note:
 
 
     def __hash__(self):
-        return hash(self.__repr__())
+        return hash((self.type, self.val, self.duration, self.octave, self.mode))
 
     def __eq__(self, other):
         """
